@@ -451,6 +451,33 @@ example (k : Nat) :
   have := dot_self_nonneg d
   positivity
 
+/-- **wolfecubic_ray.**  Every point `wolfecubic` returns is `p + t'·d` with `t' ≥ 0`: the expansion only multiplies
+by 10, the cubic interpolation is clamped to the bracket and the safeguard stays inside it. -/
+theorem wolfecubic_ray (sqrt : Rat → Rat) : LSRay (wolfecubic sqrt) := by
+  intro o p v d g t hd ht
+  unfold wolfecubic
+  rcases wolfecubicJ_ray sqrt ⟨Scalar.zero, Scalar.zero, v, v, g, g⟩ ⟨le_refl _, le_refl _⟩ o p v d g t ht with h | h
+  · exact ⟨0, le_refl _, by rw [h]; exact (axpy_zero p d (le_of_eq hd.symm)).symm⟩
+  · exact h
+
+/-- **linesearch_methods_monotone_cg_modelled.**  CG with the modelled `wolfecubic` (the default line search of
+`AbstractLineSearchOptimizer`) or the modelled `backtracking`, on every objective with a monotone gradient, from
+every starting point: consistent, every direction non-ascent, values never increase — no hypothesis about the line
+search is left.  (`dlinmin` may step backwards along the direction, so `LSRay` does not hold for it: for CG with
+`dlinmin` only `linesearch_methods_monotone_partial` applies.) -/
+theorem linesearch_methods_monotone_cg_modelled (sqrt : Rat → Rat) (type : Nat) (htype : type ≠ 0)
+    (o : Objective Rat) (ho : GradDim o) (hconv : GradMonotone o) (x0 : Vec Rat) (c0 : Nat) (k : Nat) :
+    let run := iterN (LSOpt.step (lineSearchOf sqrt 0 1 type) o) (LSOpt.init o (.cg c0) x0)
+    (run k).best.value = o.f (run k).best.point ∧ Vec.dot (run k).derivative (run k).dir ≤ 0 ∧
+      (run (k + 1)).best.value ≤ (run k).best.value := by
+  have hr : LSRay (lineSearchOf sqrt 0 1 type) := by
+    unfold lineSearchOf
+    split
+    · exact absurd rfl htype
+    · exact wolfecubic_ray sqrt
+    · exact backtracking_ray
+  exact linesearch_methods_monotone_cg_convex _ (lineSearchOf_contract sqrt 0 1 type) hr o ho hconv x0 c0 k
+
 /-! ## histories: re-initialisation of a used object, save/restore at any point -/
 
 section history
